@@ -72,9 +72,22 @@ func errGated(c *Check, rule string, callee string, what string) int {
 					if st, ok := r.(*ssa.Store); ok && st.Val == v {
 						if al, ok := st.Addr.(*ssa.Alloc); ok {
 							for _, ar := range *al.Referrers() {
-								if ar != r {
-									uses = append(uses, ar)
+								if ar == r {
+									continue
 								}
+								// a result spilled because of `defer`: loaded only to be returned
+								if ld, ok := ar.(*ssa.UnOp); ok {
+									onlyReturned := len(*ld.Referrers()) > 0
+									for _, lr := range *ld.Referrers() {
+										if _, isRet := lr.(*ssa.Return); !isRet {
+											onlyReturned = false
+										}
+									}
+									if onlyReturned {
+										continue
+									}
+								}
+								uses = append(uses, ar)
 							}
 							continue
 						}
